@@ -72,7 +72,10 @@ conforms = z3.Function("conforms", Obj, Obj, B)     # C02: value conforms to sch
 winok = z3.Function("winok", Obj, I, I, Obj, I, B)  # forall j<k. conforms(E[eoff+j], v[voff+j])
 winwit = z3.Function("winwit", Obj, I, I, Obj, I, I)
 inp = z3.Function("inp", Obj, B)                    # input object: floats reachable from it are in range
+anyok = z3.Function("anyok", Obj, I, Obj, B)        # exists j < n. conforms(L[j], v)
+anywit = z3.Function("anywit", Obj, I, Obj, I)
 propf = z3.Function("propf", Obj, Obj, Obj)         # schema.props.get(name): registry.get(name, Nil)
+setidx = z3.Function("setidx", I, Obj, Obj, I)    # position of a member in the set's iteration order
 all_in = z3.Function("all_in", S, S, B)           # every character of the 1st string occurs in the 2nd
 all_in_wit = z3.Function("all_in_wit", S, S, I)
 joined = z3.Function("joined", S, Obj, S)         # sep.join(list of str)
@@ -378,6 +381,25 @@ def base_axioms() -> List[z3.BoolRef]:
     satisfiable_ = z3.Function("satisfiable", Obj, B)
     ax.append(z3.ForAll([o, o2_ := z3.Const("sw", Obj)], z3.Implies(conforms(o, o2_), satisfiable_(o)),
                         patterns=[conforms(o, o2_)]))
+    # anyok(L, n, v)  <=>  exists j < n. conforms(L[j], v)      (definition, two halves)
+    aL, av = z3.Consts("aL av", Obj)
+    an, aj = z3.Ints("an aj")
+    aw_ = anywit(aL, an, av)
+    ax.append(z3.ForAll([aL, an, av], z3.Implies(anyok(aL, an, av),
+                                                 z3.And(0 <= aw_, aw_ < an, conforms(lat(aL, aw_), av))),
+                        patterns=[anyok(aL, an, av)]))
+    ax.append(z3.ForAll([aL, an, av, aj], z3.Implies(z3.And(0 <= aj, aj < an, conforms(lat(aL, aj), av)),
+                                                     anyok(aL, an, av)),
+                        patterns=[z3.MultiPattern(anyok(aL, an, av), lat(aL, aj))]))
+    # iteration order of a set: a bijection between positions 0..klen-1 and the members
+    hs = z3.Int("hs")
+    ax.append(z3.ForAll([hs, o, j], z3.Implies(z3.And(0 <= j, j < klen(o)),
+                                               z3.And(has(o, setord(hs, o, j)), setidx(hs, o, setord(hs, o, j)) == j)),
+                        patterns=[setord(hs, o, j)]))
+    ax.append(z3.ForAll([hs, o, k], z3.Implies(has(o, k),
+                                               z3.And(0 <= setidx(hs, o, k), setidx(hs, o, k) < klen(o),
+                                                      setord(hs, o, setidx(hs, o, k)) == k)),
+                        patterns=[setidx(hs, o, k)]))
     # == between heap objects of standard data (UUID, datetime, lists of such, ...) is an equivalence
     o2 = z3.Const("o2", Obj)
     ax.append(z3.ForAll([o], ref_eq(o, o), patterns=[ref_eq(o, o)]))
